@@ -17,6 +17,8 @@ pub struct Case {
     pub f: fol::Formula,
     pub raw: RawInterp,
     pub envc: Vec<u16>,
+    /// propositional case: evaluate under all 9 pairs H subset-of T over the atoms s and hs
+    pub all_pairs: bool,
 }
 
 pub struct C05;
@@ -117,13 +119,63 @@ impl Check for C05 {
             g::raw_interp(c.preds.len(), c.fcs.len(), 2, 5),
             vec(any::<u16>(), 6),
         )
-            .prop_map(|(f, raw, envc)| Case { f, raw, envc })
+            .prop_map(|(f, raw, envc)| Case { f, raw, envc, all_pairs: false })
             .boxed()
     }
     fn rule(&self) -> String {
         "random formula (all connectives, three sorts, predicates p, hp, tp, q, s, hs so that copies of different predicates could collide) x random H subset-of T x assignment; oracle: HT satisfaction (window-relativised Kripke semantics) == classical satisfaction of gamma(F) in I_{H,T}; non-trivial = formula has a negation or implication-like connective above an atom and H != T; distinct by formula text + interpretation".into()
     }
+    fn exhaustive(&self, _tier: Tier) -> Vec<Case> {
+        // every propositional formula of depth <= 2 over the atoms s, hs and the constants
+        let atom = |p: &str| {
+            fol::Formula::AtomicFormula(fol::AtomicFormula::Atom(fol::Atom {
+                predicate_symbol: p.into(),
+                terms: vec![],
+            }))
+        };
+        let level0 = vec![
+            atom("s"),
+            atom("hs"),
+            fol::Formula::AtomicFormula(fol::AtomicFormula::Truth),
+            fol::Formula::AtomicFormula(fol::AtomicFormula::Falsity),
+        ];
+        let conns = [
+            fol::BinaryConnective::Conjunction,
+            fol::BinaryConnective::Disjunction,
+            fol::BinaryConnective::Implication,
+            fol::BinaryConnective::ReverseImplication,
+            fol::BinaryConnective::Equivalence,
+        ];
+        let next = |prev: &Vec<fol::Formula>| -> Vec<fol::Formula> {
+            let mut out = prev.clone();
+            for f in prev {
+                out.push(g::not(f.clone()));
+            }
+            for c in &conns {
+                for a in prev {
+                    for b in prev {
+                        out.push(g::bin(c.clone(), a.clone(), b.clone()));
+                    }
+                }
+            }
+            out
+        };
+        let level1 = next(&level0);
+        let level2 = next(&level1);
+        level2
+            .into_iter()
+            .map(|f| Case {
+                f,
+                raw: RawInterp { tuples: vec![], fcs: vec![], in_h: vec![] },
+                envc: vec![0],
+                all_pairs: true,
+            })
+            .collect()
+    }
     fn run(&self, case: &Case) -> Outcome {
+        if case.all_pairs {
+            return run_all_pairs(case);
+        }
         let c = cfg();
         let src = ir::lower(&case.f);
         let gam = case.f.clone().gamma();
@@ -193,6 +245,7 @@ impl Check for C05 {
             "formula": safe_print::formula(&case.f, &Style::plain()),
             "raw": raw_json(&case.raw),
             "envc": case.envc,
+            "all_pairs": case.all_pairs,
         })
     }
     fn from_replay(&self, j: &Value) -> Option<Case> {
@@ -200,6 +253,56 @@ impl Check for C05 {
             f: j["formula"].as_str()?.parse().ok()?,
             raw: raw_from_json(&j["raw"])?,
             envc: j["envc"].as_array()?.iter().map(|x| x.as_u64().unwrap() as u16).collect(),
+            all_pairs: j["all_pairs"].as_bool().unwrap_or(false),
         })
     }
+}
+
+
+/// propositional formula under all pairs H subset-of T over the atoms s, hs
+fn run_all_pairs(case: &Case) -> Outcome {
+    let src = ir::lower(&case.f);
+    let gam = case.f.clone().gamma();
+    let gam_ir = ir::lower(&gam);
+    let atoms = ["s", "hs"];
+    let mut distinguishing = 0;
+    for t_mask in 0..4u8 {
+        for h_mask in 0..4u8 {
+            if h_mask & !t_mask != 0 {
+                continue;
+            }
+            let mk = |mask: u8| {
+                let mut i = Interp::default();
+                for (k, a) in atoms.iter().enumerate() {
+                    i.preds.entry((a.to_string(), 0)).or_default();
+                    if mask & (1 << k) != 0 {
+                        i.insert(a, vec![]);
+                    }
+                }
+                i
+            };
+            let (h, t) = (mk(h_mask), mk(t_mask));
+            let ev = Ev::ht(&h, &t, &[], false);
+            let lhs = ev.sat(&src, &mut Env::new(), World::H);
+            let cl = ht_as_classical(&h, &t);
+            let ev2 = Ev::classical(&cl, &[], false);
+            let rhs = ev2.sat(&gam_ir, &mut Env::new(), World::T);
+            if lhs != rhs {
+                return Outcome::fail(
+                    "semantic-mismatch",
+                    format!(
+                        "C05: (H,T) |= F is {lhs:?} but I_(H,T) |= gamma(F) is {rhs:?}\n  F: {}\n  gamma(F): {gam}\n  H: {}\n  T: {}",
+                        case.f,
+                        h.json(),
+                        t.json()
+                    ),
+                );
+            }
+            if h_mask != t_mask {
+                distinguishing += 1;
+            }
+        }
+    }
+    let text = case.f.to_string();
+    Outcome::pass(interesting(&src) && distinguishing > 0, hash64(&format!("exhaustive|{text}"))).label("exhaustive-propositional")
 }
